@@ -427,7 +427,7 @@ class WorldGen:
                   "thickness": [t0] if r.random() < 0.5 else [t0, r.choice([50e3, 100e3, 200e3])],
                   "angle": [a0] if a0 == a1 and r.random() < 0.7 else [a0, a1]}
             if r.random() < 0.3 and kind != "fault":
-                tt = r.choice([0, 10e3, -10e3, 25e3])
+                tt = r.choice([0, 10e3, -10e3, 25e3, -150e3, -300e3])
                 sg["top truncation"] = [tt] if r.random() < 0.5 else [tt, r.choice([0, 10e3])]
             if with_models and r.random() < 0.4:
                 sg.update(self.line_models(kind, "segment"))
